@@ -99,7 +99,7 @@ func (g *Generator) handleStruct(paramType ast.Expr, paramTypeName string, name 
 }
 
 func (g *Generator) handleIdent(paramType *ast.Ident, name *ast.Ident, file *ast.File, methodName string) {
-	if isStructType(paramType.Name, file) {
+	if g.isStruct(paramType, file) {
 		g.setBodyParamName(methodName, name.Name)
 		g.handleStruct(paramType, paramType.Name, name, methodName)
 	} else {
@@ -108,6 +108,17 @@ func (g *Generator) handleIdent(paramType *ast.Ident, name *ast.Ident, file *ast
 		}
 		g.data.QueryParamsMap[methodName] = append(g.data.QueryParamsMap[methodName], name.Name) //basic type
 	}
+}
+
+// isStruct reports whether the identifier names a struct type, wherever in the package it is declared.
+func (g *Generator) isStruct(paramType *ast.Ident, file *ast.File) bool {
+	if tv, ok := g.Pkg().TypesInfo.Types[paramType]; ok && tv.Type != nil {
+		if named, ok := tv.Type.(*types.Named); ok {
+			_, isStruct := named.Underlying().(*types.Struct)
+			return isStruct
+		}
+	}
+	return isStructType(paramType.Name, file)
 }
 
 func (g *Generator) handleMapType(name *ast.Ident, methodName string, httpMethod string) {
